@@ -42,9 +42,9 @@ Definition exact_sqrt (x : Q) : option Q :=
 (* ------------------------------------------------------------------ densify *)
 Record fixes := {
   fx_sqdist : bool;   (* 8b793ae: short_enough compares the squared segment length *)
-  fx_posres : bool;   (* 90667bc: densify raises ValueError for resolution <= 0 *)
-  fx_empty : bool;    (* b82bfc2: densify([]) = [] instead of IndexError *)
-  fx_autopos : bool   (* f270811: to_crs skips densification unless resolution > 0 *)
+  fx_posres : bool;   (* 0d98c78: densify raises ValueError for resolution <= 0 *)
+  fx_empty : bool;    (* b9d25ee: densify([]) = [] instead of IndexError *)
+  fx_autopos : bool   (* ecfe9c0: to_crs skips densification unless resolution > 0 *)
 }.
 Definition repaired : fixes := Build_fixes true true true true.
 
